@@ -228,6 +228,31 @@ def test_crash_and_isolate():
         first_write = [s for s in states if s[0] == "write"][0]
         check(first_write[4] == "", "crash: killed before the first write leaves the created, empty file")
 
+    # data moved by a copy (shutil's fast path uses sendfile / copy_file_range): the state
+    # "destination created but still empty" must be a reachable kill point
+    with tempfile.TemporaryDirectory(dir="/dev/shm" if os.path.isdir("/dev/shm") else None) as tmp:
+        tmp = Path(tmp)
+        root, log = tmp / "world", tmp / "log"
+        log.mkdir()
+        root.mkdir()
+        (tmp / "src.bin").write_bytes(b"x" * 4096)
+
+        def copy_workload():
+            import shutil
+
+            shutil.copyfile(tmp / "src.bin", root / "dst.bin")
+
+        paths, status = crash.discover(copy_workload, root, log)
+        (root / "dst.bin").unlink()
+        events, status = crash.count(copy_workload, paths, log)
+        kinds = [e[0] for e in events]
+        (root / "dst.bin").unlink()
+        mover = [k for k in kinds if k in ("sendfile", "copy_file_range", "write")]
+        check(bool(mover), f"crash: the data phase of a file copy is an enumerated event ({kinds})")
+        if mover:
+            killed, _ = crash.kill_at(copy_workload, paths, mover[0], 1, log)
+            check(killed and (root / "dst.bin").exists() and (root / "dst.bin").stat().st_size == 0, "crash: killed before the data phase leaves the destination created and empty")
+
     def hang():
         import threading
 
